@@ -307,7 +307,7 @@ def run(ctx: core.Ctx):
             ctx.violation("Function.membership/name-clash-accepted", {"case": what}, "ValueError", "evaluated")
         except ValueError:
             pass
-    ctx.exhaustive = True
+    ctx.exhaustive = not ctx.quick      # the quick tier replays a stride of the enumerated cases (TLC checks all of them on the model)
     ctx.rule = (f"TLC enumerates {len(g.emitted)} well-typed trees x 2 parenthesis styles (every second tree replayed in the quick tier) and evaluates {nf} seeded trees of depth 3-5 over "
                 "all 13 operators and 34 functions; each text, spaced and unspaced, is loaded by Function.create; postfix and values under 5 assignments, scalars and arrays; "
                 f"{ctx.extra.get('scope_behaviours_replayed')} behaviours of spec/MC_FunctionScope (engine / variable / term edits interleaved with evaluations) replayed on long-lived terms")
